@@ -306,7 +306,7 @@ pub fn c12(cx: &Ctx) -> (Vec<Violation>, Cover) {
     }
     let mut runs_idx: BTreeMap<(Inst, usize, Key), Vec<usize>> = BTreeMap::new();
     for r in a.runs.iter() {
-        for k in keys_of_obs(&r.obs) {
+        for k in sched_keys(a, &cx.dels, r) {
             if matches!(k, Key::Ins(..) | Key::Mut(..)) {
                 runs_idx.entry((r.inst, r.op, k)).or_default().push(r.pos);
             }
